@@ -32,6 +32,17 @@ func checkC04(c *Ctx, r *Report) {
 	c04R5b(c, r)
 	c04WholeMessage(c, r)
 	c04FreshMap(c, r)
+	c04PackWhole(c, r)
+	c04RootGuard(c, r)
+	// a legal name must not be refused because it is compressed: the pointer exit measures the remainder in wire octets
+	sub := newReport("tmp", r.Tier)
+	c03EarlyExits(c, sub)
+	r.rule("C04.R3.pointer-exit-length", 1, "the length test on the compression-pointer exit measures the remainder in wire octets")
+	for _, o := range sub.obls {
+		if o.Construct == "packDomainName" {
+			r.add("C04.R3.pointer-exit-length", o.Construct, o.Status, o.Pos, o.Detail)
+		}
+	}
 }
 
 // c04R4b: the map accessors index with the key they are given (no normalisation inside find/insert).
